@@ -178,4 +178,190 @@ pub fn run_c19(ctx: &mut Ctx) {
     let known = ctx.known.clone();
     let n = ctx.count(500_000, 5_000_000);
     ctx.run("lane-arithmetic", n, null_strategy(), |c, i| null_check(&known, c, i));
+    let n = ctx.count(60_000, 1_000_000);
+    ctx.run("operation-chains", n, chain_strategy(), chain_check);
+    ctx.required_classes.push("run of >= 64 word rotations".into());
+}
+
+// ------------------------------------------------------------------------------------------------
+// chains: long sequences of operations on one value (state that builds up inside a value - lazily
+// applied rotations, cached offsets - only shows after many steps)
+// ------------------------------------------------------------------------------------------------
+
+#[derive(Clone, Debug, Serialize, Deserialize, PartialEq, Eq)]
+pub enum NOp {
+    RotWords(u8),
+    SplatRot(u8),
+    AddB,
+    AddAssignB,
+    XorB,
+    XorAssignB,
+    AndB,
+    OrB,
+    Replace(u8, u64),
+    RotateRightLanes([u8; 4]),
+}
+
+#[derive(Clone, Debug, Serialize, Deserialize)]
+pub struct NullChain {
+    pub a: HexBytes,
+    pub b: HexBytes,
+    /// (operation, repetitions)
+    pub runs: Vec<(NOp, u16)>,
+}
+
+pub fn chain_strategy() -> BoxedStrategy<NullChain> {
+    let op = prop_oneof![
+        6 => (0u8..4).prop_map(NOp::RotWords),
+        3 => any::<u8>().prop_map(NOp::SplatRot),
+        1 => Just(NOp::AddB), 1 => Just(NOp::AddAssignB), 1 => Just(NOp::XorB), 1 => Just(NOp::XorAssignB),
+        1 => Just(NOp::AndB), 1 => Just(NOp::OrB),
+        1 => (0u8..4, any::<u64>()).prop_map(|(i, v)| NOp::Replace(i, v)),
+        1 => any::<[u8; 4]>().prop_map(NOp::RotateRightLanes),
+    ];
+    let reps = prop_oneof![6 => 1u16..4, 2 => 4u16..70, 2 => 60u16..300];
+    (bytes_n(64), bytes_n(64), prop::collection::vec((op, reps), 1..10)).prop_map(|(a, b, runs)| NullChain { a, b, runs }).boxed()
+}
+
+fn model_step(cur: &[u8], b: &[u8], op: &NOp, wbits: u32) -> Vec<u8> {
+    let wb = (wbits / 8) as usize;
+    match op {
+        NOp::RotWords(i) => {
+            let i = *i as usize % 4;
+            let mut out = vec![0u8; cur.len()];
+            let nw = cur.len() / wb;
+            for j in 0..nw {
+                let g = j / 4 * 4;
+                let src = g + (j % 4 + 4 - i) % 4;
+                out[j * wb..(j + 1) * wb].copy_from_slice(&cur[src * wb..(src + 1) * wb]);
+            }
+            out
+        }
+        NOp::SplatRot(r) => V::rotr(cur, wbits, 1 + (*r as u32 % (wbits - 1))),
+        NOp::AddB | NOp::AddAssignB => V::add(cur, b, wbits),
+        NOp::XorB | NOp::XorAssignB => V::xor(cur, b),
+        NOp::AndB => V::and(cur, b),
+        NOp::OrB => V::or(cur, b),
+        NOp::Replace(i, v) => {
+            let mut out = cur.to_vec();
+            let i = *i as usize % 4;
+            // replace acts on the first group of four words (the inner vector for u32x4x4 is not addressed)
+            out[i * wb..(i + 1) * wb].copy_from_slice(&v.to_le_bytes()[..wb]);
+            out
+        }
+        NOp::RotateRightLanes(a) => {
+            let m = if wbits == 128 { u128::MAX } else { (1u128 << wbits) - 1 };
+            let w = V::words(cur, wbits);
+            let out: Vec<u128> = w.iter().enumerate().map(|(j, x)| {
+                let n = 1 + (a[j % 4] as u32 % (wbits - 1));
+                ((x >> n) | (x << (wbits - n))) & m
+            }).collect();
+            V::unwords(&out, wbits)
+        }
+    }
+}
+
+macro_rules! chain_vec4 {
+    ($c:ident, $ty:ident, $word:ident, $bits:expr, $wfn:ident, $bfn:ident, $nbytes:expr) => {{
+        use ppv_null::$ty;
+        let a = &$c.a.0[..$nbytes];
+        let b = &$c.b.0[..$nbytes];
+        let mk = |w: &[$word]| $ty::new(w[0], w[1], w[2], w[3]);
+        let rd = |v: $ty| -> Vec<u8> { $bfn(&[v.extract(0), v.extract(1), v.extract(2), v.extract(3)]) };
+        let vb = mk(&$wfn(b));
+        let mut want = a.to_vec();
+        for (op, reps) in &$c.runs {
+            for _ in 0..*reps {
+                want = model_step(&want, b, op, $bits);
+            }
+        }
+        let got = crate::engine::guard(|| {
+            let mut v = mk(&$wfn(a));
+            for (op, reps) in &$c.runs {
+                for _ in 0..*reps {
+                    v = match op {
+                        NOp::RotWords(i) => v.rotate_words_right((*i % 4) as u32),
+                        NOp::SplatRot(r) => v.splat_rotate_right(1 + (*r as u32 % ($bits - 1))),
+                        NOp::AddB => v + vb,
+                        NOp::AddAssignB => { let mut t = v; t += vb; t }
+                        NOp::XorB => v ^ vb,
+                        NOp::XorAssignB => { let mut t = v; t ^= vb; t }
+                        NOp::AndB => v & vb,
+                        NOp::OrB => v | vb,
+                        NOp::Replace(i, x) => v.replace((*i % 4) as usize, *x as $word),
+                        NOp::RotateRightLanes(am) => {
+                            let amts: Vec<$word> = am.iter().map(|r| (1 + (*r as u32 % ($bits - 1))) as $word).collect();
+                            let mut t = v;
+                            t.rotate_right(mk(&amts))
+                        }
+                    };
+                }
+            }
+            rd(v)
+        });
+        (got, want)
+    }};
+}
+
+pub fn chain_check(c: &NullChain, info: &mut CaseInfo) -> Result<(), Fail> {
+    let total: u32 = c.runs.iter().map(|(_, r)| *r as u32).sum();
+    let longest_rot: u32 = c.runs.iter().filter(|(o, _)| matches!(o, NOp::RotWords(_))).map(|(_, r)| *r as u32).max().unwrap_or(0);
+    info.nontrivial = total >= 2;
+    info.label_if(total >= 64, "chain of >= 64 operations");
+    info.label_if(longest_rot >= 64, "run of >= 64 word rotations");
+    let report = |ty: &str, r: (Result<Vec<u8>, String>, Vec<u8>)| -> Result<(), Fail> {
+        match r.0 {
+            Err(p) => Err(Fail::new(format!("C19:{}:chain:PANIC", ty), format!("chain of {} operations panicked: {}", total, p))),
+            Ok(g) if g != r.1 => Err(Fail::new(format!("C19:{}:chain:WRONG", ty), format!("after {} operations: got {} want {}", total, crate::refmodels::hex(&g), crate::refmodels::hex(&r.1)))),
+            Ok(_) => Ok(()),
+        }
+    };
+    report("u32x4", chain_vec4!(c, u32x4, u32, 32u32, w32, b32, 16))?;
+    report("u64x4", chain_vec4!(c, u64x4, u64, 64u32, w64, b64, 32))?;
+    // u32x4x4: the same chain on four inner vectors (replace / per-lane rotate are not offered there)
+    {
+        use ppv_null::{u32x4, u32x4x4};
+        let a = &c.a.0[..64];
+        let b = &c.b.0[..64];
+        let lane = |w: &[u32], i: usize| u32x4::new(w[4 * i], w[4 * i + 1], w[4 * i + 2], w[4 * i + 3]);
+        let mk = |w: &[u32]| u32x4x4::from((lane(w, 0), lane(w, 1), lane(w, 2), lane(w, 3)));
+        let vb = mk(&w32(b));
+        let mut want = a.to_vec();
+        for (op, reps) in &c.runs {
+            if matches!(op, NOp::Replace(..) | NOp::RotateRightLanes(_)) {
+                continue;
+            }
+            for _ in 0..*reps {
+                want = model_step(&want, b, op, 32);
+            }
+        }
+        let got = crate::engine::guard(|| {
+            let mut v = mk(&w32(a));
+            for (op, reps) in &c.runs {
+                for _ in 0..*reps {
+                    v = match op {
+                        NOp::RotWords(i) => v.rotate_words_right((*i % 4) as u32),
+                        NOp::SplatRot(r) => v.splat_rotate_right(1 + (*r as u32 % 31)),
+                        NOp::AddB => v + vb,
+                        NOp::AddAssignB => { let mut t = v; t += vb; t }
+                        NOp::XorB => v ^ vb,
+                        NOp::XorAssignB => { let mut t = v; t ^= vb; t }
+                        NOp::AndB => v & vb,
+                        NOp::OrB => v | vb,
+                        NOp::Replace(..) | NOp::RotateRightLanes(_) => v,
+                    };
+                }
+            }
+            let (p, q, r, s) = v.into_parts();
+            let mut o = Vec::new();
+            for l in [p, q, r, s] {
+                for i in 0..4 {
+                    o.extend_from_slice(&l.extract(i).to_le_bytes());
+                }
+            }
+            o
+        });
+        report("u32x4x4", (got, want))?;
+    }
+    Ok(())
 }
